@@ -40,9 +40,35 @@ def observe(ad, rid, times=None, detail=False, style_catalogue=None, use_cache=F
 NONE_T = -1
 
 
+def _may_paint(doc, ad):
+  """rpaint[R + 1] = 1 when region R (0: the default region) could put a background on screen WITHOUT content at some time:
+  a background colour that is not fully transparent is specified on it, animated on it, or is the document's initial value.
+  A region that cannot paint and has no content presents nothing: whether a snapshot lists it is immaterial (C01 speaks of
+  content; the cached and the direct snapshot paths differ on exactly this, harmlessly)."""
+  import ttconv.style_properties as sp
+  BG = sp.StyleProperties.BackgroundColor
+
+  def visible(c):
+    return c is not None and c.components[3] != 0
+  init = visible(doc.get_initial_value(BG)) if doc.has_initial_value(BG) else False
+  out = [1 if init else 0]
+  for k in range(1, ad.get("nr", 0) + 1):
+    r = doc.get_region("r%d" % k)
+    if r is None:
+      out.append(1)
+      continue
+    may = init or visible(r.get_style(BG)) or any(st.style_property is BG and visible(st.value) for st in r.iter_animation_steps())
+    out.append(1 if may else 0)
+  return out
+
+
 def _observe_doc(doc, ad, rid, times, detail, use_cache):
   from ttconv.isd import ISD
   D = ad.get("D", 2)
+  # use_cache == "snap": every snapshot of this record is taken THROUGH the SignificantTimes cache (a snapshot is a snapshot
+  # whichever way it is asked for); True: both ways, side by side, plus source fingerprints (C14)
+  snap_cached = use_cache == "snap"
+  use_cache = use_cache is True
   fps = []
   if use_cache:
     from .isdu import fingerprint
@@ -65,7 +91,7 @@ def _observe_doc(doc, ad, rid, times, detail, use_cache):
   obsc = []
   params = []
   for t in times:
-    isd = ISD.from_model(doc, Fraction(t, D))
+    isd = ISD.from_model(doc, Fraction(t, D), sig) if snap_cached else ISD.from_model(doc, Fraction(t, D))
     obs.append(project_isd(isd, detail))
     params.append(doc_params(isd))
     if use_cache:
@@ -82,6 +108,7 @@ def _observe_doc(doc, ad, rid, times, detail, use_cache):
     seqt.append(tk if ok else -7)
     seqd.append([r["digest"] for r in project_isd(isd, False) if r["paints"]])
   rec = {"id": rid, "doc": {k: ad[k] for k in TTML_FIELDS}, "times": times, "obs": obs, "sig": sigticks, "sigok": sigok,
+         "rpaint": _may_paint(doc, ad),
          "seqt": seqt, "seqd": seqd, "params": params, "srcparams": doc_params(doc)}
   if use_cache:
     rec["obsc"] = obsc
